@@ -125,3 +125,17 @@ func VerifNewReconcileNode(c client.Client, ali register.Interface, vsw *vswitch
 		eniBatchSize:       5,
 	}
 }
+
+// VerifGetPods runs getPods (which pods of the node take part in the IPAM, and what each needs) over an injected client.
+func VerifGetPods(ctx context.Context, c client.Client, node *networkv1beta1.Node) (map[string]VerifPod, error) {
+	n := &ReconcileNode{client: c, tracer: noop.NewTracerProvider().Tracer("verif")}
+	m, err := n.getPods(ctx, node)
+	if err != nil {
+		return nil, err
+	}
+	out := make(map[string]VerifPod, len(m))
+	for id, p := range m {
+		out[id] = VerifPod{UID: p.PodUID, RequireIPv4: p.RequireIPv4, RequireIPv6: p.RequireIPv6, RequireERDMA: p.RequireERDMA, IPv4: p.IPv4, IPv6: p.IPv6}
+	}
+	return out, nil
+}
